@@ -15,6 +15,19 @@
 //!   uncompressed in a message, `ParsedName` compressed at every suffix
 //!   (plus a pointer chain and a double pointer), `Chain<RelativeName, Name>`
 //!   split at every boundary;
+//! * compression shapes: every name of those menus (<= 3 labels over the
+//!   5-label menu, <= 2 over the extended one; thorough: <= 3 over both) as
+//!   `ParsedName` parsed from a hand-assembled message that stores it in every
+//!   composition of its labels into h+1 segments joined by h <= 2 (extended
+//!   menu: 3, thorough: 3 / 2) pointers: bare pointer to a flat name, bare
+//!   pointer to a compressed name, pointer to pointer, labels + pointer to
+//!   labels + pointer, ...; with the extended menu also with every pointer
+//!   target >= 256; against each other, flat `Name` and `Chain` at every split;
+//!   `as_flat_slice`, conversions, label iteration, Hash and the names derived
+//!   by `iter_suffixes`/`split_first`/`parent` for every shape;
+//! * the same shapes (<= 3 hops) for every embedded name of every compact
+//!   record data value and for the owner of a record, through `Record`,
+//!   record data and `RecordHeader` ==/partial_cmp/cmp/canonical_cmp/Hash;
 //! * record data: the `mc::rgen` compact values, plus for each its
 //!   name-case twin, its all-letters-case twin and its `Unknown`-variant twin
 //!   (what the zone-file reader produces for the RFC 3597 `\#` syntax), as
@@ -166,6 +179,10 @@ fn digest(h: &Hs) -> Hd {
 /// consequences in record data with embedded names are then only counted.
 static NAME_LEVEL_BROKEN: std::sync::atomic::AtomicBool = std::sync::atomic::AtomicBool::new(false);
 
+/// The same, but only for violations reported by the domains that hold
+/// names in the plain representations (not by the compression-shape domain).
+static PLAIN_NAME_LEVEL_BROKEN: std::sync::atomic::AtomicBool = std::sync::atomic::AtomicBool::new(false);
+
 //------------ environment -----------------------------------------------------
 
 struct Env {
@@ -198,6 +215,9 @@ impl Env {
         }
         if sig.starts_with("C04|name") || sig.starts_with("C04|label") {
             NAME_LEVEL_BROKEN.store(true, AO::Relaxed);
+            if !sig.starts_with("C04|name-shape") {
+                PLAIN_NAME_LEVEL_BROKEN.store(true, AO::Relaxed);
+            }
         }
         self.ctx.violation(&sig, &what, case);
     }
@@ -1364,6 +1384,26 @@ fn shape_class(parts: &[usize]) -> &'static str {
     }
 }
 
+/// Panic class with the numbers (positions, lengths) taken out.
+fn shape_panic_class(e: &str) -> String {
+    let mut out = String::new();
+    for c in panic_class(e).chars() {
+        if c.is_ascii_digit() {
+            if !out.ends_with('N') {
+                out.push('N');
+            }
+        } else {
+            out.push(c);
+        }
+    }
+    out
+}
+
+/// From the ordinary to the unusual (for the class of a pair).
+fn shape_class_rank(class: &str) -> usize {
+    ["flat-name", "chain", "uncompressed", "labels+pointer", "bare-pointer-to-flat", "pointer-to-pointer-to-flat", "labels+pointer-chain", "bare-pointer-to-compressed"].iter().position(|c| *c == class).unwrap_or(0)
+}
+
 fn shape_text(parts: &[usize]) -> String {
     parts.iter().map(|p| p.to_string()).collect::<Vec<_>>().join("|")
 }
@@ -1552,9 +1592,10 @@ fn dom_name_shapes(env: &Env, depth: usize, menu: usize, max_hops: usize, far: b
     let tag = format!("name-shape(depth{depth},menu{menu},hops{max_hops}{})", if far { ",near+far" } else { "" });
     // a defect the plain name domains have reported already is reported
     // here once per operation, not once per pair of shape classes
-    let generic = NAME_LEVEL_BROKEN.load(AO::Relaxed);
+    let generic = PLAIN_NAME_LEVEL_BROKEN.load(AO::Relaxed);
     let cls1 = |i: usize| if generic { "any-shape(name-level-defect-reported-before)" } else { specs[i].1.class };
-    let cls2 = |i: usize, j: usize| if generic { cls1(i).to_string() } else { format!("{}-vs-{}", specs[i].1.class, specs[j].1.class) };
+    // class of a pair: the less ordinary of the two shape classes
+    let cls2 = |i: usize, j: usize| if shape_class_rank(specs[i].1.class) >= shape_class_rank(specs[j].1.class) { cls1(i).to_string() } else { cls1(j).to_string() };
     let desc = |i: usize| {
         let s = &specs[i].1;
         json!({"index": specs[i].0, "depth": depth, "menu": menu, "max_hops": max_hops, "far": far, "labels_hex": names[s.name].iter().map(|l| hex(l)).collect::<Vec<_>>(), "labels": names[s.name].iter().map(|l| String::from_utf8_lossy(l).to_string()).collect::<Vec<_>>(), "representation": s.kind, "shape_class": s.class, "message": hex(&s.msg), "pos": s.pos})
@@ -1612,7 +1653,7 @@ fn dom_name_shapes(env: &Env, depth: usize, menu: usize, max_hops: usize, far: b
                 reps.push(Rep::Flat(Name::root_vec()));
             }
             Err(e) => {
-                env.viol(format!("C04|name-shape|panic|{}|{}", cls1(i), panic_class(&e)), e, case());
+                env.viol(format!("C04|name-shape|panic|{}|{}", cls1(i), shape_panic_class(&e)), e, case());
                 reps.push(Rep::Flat(Name::root_vec()));
             }
         }
@@ -1632,7 +1673,7 @@ fn dom_name_shapes(env: &Env, depth: usize, menu: usize, max_hops: usize, far: b
                 Rep::Parsed(a) => match guard(|| hrec(a)) {
                     Ok(h) => Some(h),
                     Err(e) => {
-                        env.viol(format!("C04|name-shape|panic|{}|{}", cls1(i), panic_class(&e)), e, case());
+                        env.viol(format!("C04|name-shape|panic|{}|{}", cls1(i), shape_panic_class(&e)), e, case());
                         None
                     }
                 },
@@ -1641,7 +1682,7 @@ fn dom_name_shapes(env: &Env, depth: usize, menu: usize, max_hops: usize, far: b
             if let Rep::Parsed(pn) = &reps[i] {
                 env.stats.eval();
                 match guard(|| shape_unary(pn, &names[ni])) {
-                    Err(e) => env.viol(format!("C04|name-shape|panic|{}|{}", cls1(i), panic_class(&e)), e, case()),
+                    Err(e) => env.viol(format!("C04|name-shape|panic|{}|{}", cls1(i), shape_panic_class(&e)), e, case()),
                     Ok(u) => {
                         *local.entry(format!("{tag}:{}:{}", s.class, if u.compressed { "is_compressed" } else { "flat-slice-path" })).or_insert(0) += 1;
                         if u.compressed != u.flat_slice.is_none() {
@@ -1711,7 +1752,7 @@ fn dom_name_shapes(env: &Env, depth: usize, menu: usize, max_hops: usize, far: b
                 let o = match r {
                     Ok(o) => o,
                     Err(e) => {
-                        env.viol(format!("C04|name-shape|panic|{}|{}", cls2(i, j), panic_class(&e)), e, case());
+                        env.viol(format!("C04|name-shape|panic|{}|{}", cls2(i, j), shape_panic_class(&e)), e, case());
                         continue;
                     }
                 };
@@ -1772,7 +1813,7 @@ fn dom_name_shapes(env: &Env, depth: usize, menu: usize, max_hops: usize, far: b
         env.stats.sample(64, || json!({"domain": dom, "a": desc(i), "b": desc(j), "name_eq": rel.e(i, j), "name_cmp": ord_s(rel.c(i, j)), "hash_inputs": [hashes[i].as_ref().map(|h| hex(&h.stream)), hashes[j].as_ref().map(|h| hex(&h.stream))]}));
     }
     let cls = |i: usize, j: usize| cls2(i, j);
-    check_laws(env, &LawCfg { dom, ord_name: "name_cmp", with_eq: true, triples: n <= 3000, desc: &desc, pair_class: &cls, hash_class: &cls, only_prefix: None, tag: &tag, sig_dom: "name-shape" }, &rel, None);
+    check_laws(env, &LawCfg { dom, ord_name: "name_cmp", with_eq: true, triples: n <= 1500, desc: &desc, pair_class: &cls, hash_class: &cls, only_prefix: None, tag: &tag, sig_dom: "name-shape" }, &rel, None);
 }
 
 //------------ relative names ------------------------------------------------------------
@@ -2727,6 +2768,359 @@ fn dom_records(env: &Env, only: Option<&[usize]>) {
     check_laws(env, &LawCfg { dom, ord_name: "canonical_cmp", with_eq: false, triples: n <= 1600, desc: &desc, pair_class: &cls, hash_class: &hcls, only_prefix: None, tag: dom, sig_dom: "record" }, &crel, None);
 }
 
+//------------ embedded names and owners in every compression shape ---------------------------
+
+type PRec<'a> = Record<ParsedName<&'a [u8]>, PRd<'a>>;
+
+enum ERec<'a> {
+    F(Record<Nm, Rd>, RecordHeader<Nm>),
+    P(PRec<'a>, RecordHeader<ParsedName<&'a [u8]>>),
+}
+
+/// (==, partial_cmp, canonical_cmp) of the records, the same of their data,
+/// (==, partial_cmp) of the record headers, canonical_lt/le/gt/ge coherent.
+type EObs = ((bool, Option<i8>, i8), (bool, Option<i8>, i8), (bool, Option<i8>), bool);
+
+macro_rules! eobs {
+    ($x:expr, $hx:expr, $y:expr, $hy:expr) => {{
+        let (x, y, hx, hy) = ($x, $y, $hx, $hy);
+        (
+            (x == y, x.partial_cmp(y).map(sgn), sgn(x.canonical_cmp(y))),
+            (x.data() == y.data(), x.data().partial_cmp(y.data()).map(sgn), sgn(x.data().canonical_cmp(y.data()))),
+            (hx == hy, hx.partial_cmp(hy).map(sgn)),
+            canon_ops_ok(x, y) && canon_ops_ok(x.data(), y.data()),
+        )
+    }};
+}
+
+fn eobserve(a: &ERec, b: &ERec) -> (EObs, Option<(i8, i8, i8)>) {
+    match (a, b) {
+        (ERec::F(x, hx), ERec::F(y, hy)) => (eobs!(x, hx, y, hy), Some((sgn(x.cmp(y)), sgn(x.data().cmp(y.data())), sgn(hx.cmp(hy))))),
+        (ERec::P(x, hx), ERec::P(y, hy)) => (eobs!(x, hx, y, hy), Some((sgn(x.cmp(y)), sgn(x.data().cmp(y.data())), sgn(hx.cmp(hy))))),
+        (ERec::F(x, hx), ERec::P(y, hy)) => (eobs!(x, hx, y, hy), None),
+        (ERec::P(x, hx), ERec::F(y, hy)) => (eobs!(x, hx, y, hy), None),
+    }
+}
+
+/// A message whose second answer record holds one name in one shape, as its
+/// owner or inside its RDATA (`rd_before`, the name, `rd_after`); the inner
+/// segments of the shape are the RDATA of a first answer record of the
+/// private-use type 65280, so the message is well-formed for a reader that
+/// does not know where names hide. Returns (message, position of the
+/// second record, position of the name).
+fn embedded_message(rtype: u16, labels: &[Vec<u8>], parts: &[usize], owner_is_shaped: bool, rd_before: &[u8], rd_after: &[u8]) -> (Vec<u8>, usize, usize) {
+    let blob_pos = 12 + 1 + 10;
+    let mut blob = Vec::new();
+    let mut next = 0;
+    for i in (1..parts.len()).rev() {
+        let here = blob_pos + blob.len();
+        blob.extend_from_slice(&shape_segment(labels, parts, i, next));
+        next = here;
+    }
+    let seg0 = shape_segment(labels, parts, 0, next);
+    let mut m = vec![0u8, 0, 0, 0, 0, 0, 0, 2, 0, 0, 0, 0];
+    m.push(0);
+    m.extend_from_slice(&0xFF00u16.to_be_bytes());
+    m.extend_from_slice(&[0, 1, 0, 0, 0, 0]);
+    m.extend_from_slice(&(blob.len() as u16).to_be_bytes());
+    m.extend_from_slice(&blob);
+    let rec_pos = m.len();
+    let rdata: Vec<u8> = if owner_is_shaped { rd_before.to_vec() } else { [rd_before, &seg0[..], rd_after].concat() };
+    if owner_is_shaped {
+        m.extend_from_slice(&seg0);
+    } else {
+        m.extend_from_slice(&name_wire(&[b"a".to_vec()]));
+    }
+    m.extend_from_slice(&rtype.to_be_bytes());
+    m.extend_from_slice(&[0, 1]);
+    m.extend_from_slice(&3600u32.to_be_bytes());
+    m.extend_from_slice(&(rdata.len() as u16).to_be_bytes());
+    let rd_pos = m.len();
+    m.extend_from_slice(&rdata);
+    (m, rec_pos, if owner_is_shaped { rec_pos } else { rd_pos + rd_before.len() })
+}
+
+/// Names embedded in record data, and record owners, stored in every
+/// compression shape. One group per (compact value, embedded name) and one
+/// group for the owner of an A record; in each group the name is replaced by
+/// each of b., B., a.b., a.B. and the root, every one flat (built without a
+/// message) and parsed from a message that stores it in every shape of <=
+/// max_hops hops. All ordered pairs within each group through ==,
+/// partial_cmp, cmp, canonical_cmp and Hash of `Record`, of the record data
+/// and of `RecordHeader`: the results must be those of the flat values, and
+/// those the reference (RFC 4034 6.1-6.3) demands.
+fn dom_embedded_shapes(env: &Env, max_hops: usize, only: Option<(usize, usize)>) {
+    let dom = "rdata-name-shape";
+    let (vals, _) = rgen::values_ex(rgen::Tier::Compact);
+    // (base value or vals.len() for the owner group, number of the embedded name)
+    let mut groups: Vec<(usize, usize)> = Vec::new();
+    for (b, v) in vals.iter().enumerate() {
+        for k in 0..v.names.len() {
+            groups.push((b, k));
+        }
+    }
+    groups.push((vals.len(), 0));
+    if let Some(o) = only {
+        groups.retain(|g| *g == o);
+    }
+    let subs = substitute_names();
+    let a_rdata = [192u8, 0, 2, 1];
+    groups.par_iter().for_each(|&(b, k)| {
+        let owner_group = b == vals.len();
+        let (t, rtype, base_wire, base_names): (&str, u16, &[u8], &[(usize, usize)]) = if owner_group { ("owner", 1, &a_rdata, &[]) } else { (vals[b].mnemonic, vals[b].rtype, &vals[b].wire, &vals[b].names) };
+        let listed = CANONICAL_LOWERCASE.contains(&rtype);
+        let (o, l) = if owner_group { (0, 0) } else { base_names[k] };
+        let mut local: BTreeMap<String, u64> = BTreeMap::new();
+        // candidates: (labels, reference RDATA, reference canonical RDATA)
+        struct Cand {
+            labels: Vec<Vec<u8>>,
+            wire: Vec<u8>,
+            canon: Vec<u8>,
+        }
+        let mut cands: Vec<Cand> = Vec::new();
+        let mut flats: Vec<ERec> = Vec::new();
+        for nm in &subs {
+            let nw = name_wire(nm);
+            let (wire, canon) = if owner_group {
+                (a_rdata.to_vec(), a_rdata.to_vec())
+            } else {
+                let mut wire = base_wire[..o].to_vec();
+                wire.extend_from_slice(&nw);
+                wire.extend_from_slice(&base_wire[o + l..]);
+                let spans: Vec<(usize, usize)> = base_names.iter().map(|&(so, sl)| if so == o { (so, nw.len()) } else if so > o { (so + nw.len() - l, sl) } else { (so, sl) }).collect();
+                let canon = if listed { map_names(&wire, &spans, |x| x.to_ascii_lowercase()) } else { wire.clone() };
+                (wire, canon)
+            };
+            let ok = parse_flat(rtype, &wire).filter(|d| compose_plain(d).as_deref() == Some(&wire[..]) && compose_canon(d).ok().as_deref() == Some(&canon[..]));
+            let Some(d) = ok else {
+                *local.entry(format!("{dom}:name-not-accepted-by-the-type:{t}")).or_insert(0) += 1;
+                continue;
+            };
+            let owner: Nm = Name::from_octets(if owner_group { nw.clone() } else { name_wire(&[b"a".to_vec()]) }).unwrap();
+            let hd = RecordHeader::new(owner.clone(), Rtype::from_int(rtype), Class::from_int(1), Ttl::from_secs(3600), wire.len() as u16);
+            flats.push(ERec::F(Record::new(owner, Class::from_int(1), Ttl::from_secs(3600), d), hd));
+            cands.push(Cand { labels: nm.clone(), wire, canon });
+        }
+        // the messages
+        struct Item {
+            cand: usize,
+            class: &'static str,
+            kind: String,
+            msg: Vec<u8>,
+            rec_pos: usize,
+        }
+        let mut items: Vec<Item> = Vec::new();
+        for (c, cand) in cands.iter().enumerate() {
+            items.push(Item { cand: c, class: "flat-name", kind: "flat".into(), msg: vec![], rec_pos: 0 });
+            for h in 0..=max_hops {
+                for parts in compositions(cand.labels.len(), h + 1) {
+                    let (before, after): (&[u8], &[u8]) = if owner_group { (&a_rdata, &[]) } else { (&base_wire[..o], &base_wire[o + l..]) };
+                    let (msg, rec_pos, name_pos) = embedded_message(rtype, &cand.labels, &parts, owner_group, before, after);
+                    // independent reading of the message
+                    let mut ptrs = Vec::new();
+                    let good = match (mc::wire::read_message(&msg), mc::wire::read_name(&msg, name_pos, &mut ptrs)) {
+                        (Ok(m), Ok((lab, _))) => m.end == msg.len() && m.sections[0].len() == 2 && m.sections[0][1].rtype == rtype && lab == cand.labels && ptrs.len() == h && (!owner_group || m.sections[0][1].owner == cand.labels),
+                        _ => false,
+                    };
+                    if !good {
+                        eprintln!("MACHINERY: hand-assembled message {} does not hold {:?} in shape {} at {name_pos}", hex(&msg), cand.labels, shape_text(&parts));
+                        std::process::exit(2);
+                    }
+                    items.push(Item { cand: c, class: shape_class(&parts), kind: format!("parsed-shape[{}]", shape_text(&parts)), msg, rec_pos });
+                }
+            }
+        }
+        let desc = |i: usize| {
+            let it = &items[i];
+            json!({"type": t, "rtype": rtype, "base": if owner_group { "A 192.0.2.1, the owner varies".to_string() } else { vals[b].desc.clone() }, "embedded_name_number": k, "name": cands[it.cand].labels.iter().map(|l| String::from_utf8_lossy(l).to_string()).collect::<Vec<_>>(), "representation": it.kind, "shape_class": it.class, "rdata": hex(&cands[it.cand].wire), "message": hex(&it.msg), "record_pos": it.rec_pos})
+        };
+        let case1 = |i: usize| json!({"domain": dom, "group": {"base": b, "name": k}, "max_hops": max_hops, "items": [desc(i)]});
+        let case2 = |i: usize, j: usize| json!({"domain": dom, "group": {"base": b, "name": k}, "max_hops": max_hops, "items": [desc(i), desc(j)]});
+        let expl = || if NAME_LEVEL_BROKEN.load(AO::Relaxed) { "|explained:label-or-name-level-defect" } else { "" };
+        let sig1 = |kind: &str, i: usize| format!("C04|{dom}|{kind}|{t}|{}{}", items[i].class, expl());
+        let sig2 = |kind: &str, i: usize, j: usize| format!("C04|{dom}|{kind}|{t}|{}{}", if shape_class_rank(items[i].class) >= shape_class_rank(items[j].class) { items[i].class } else { items[j].class }, expl());
+        // parse
+        let mut recs: Vec<Option<ERec>> = Vec::with_capacity(items.len());
+        let mut flats = flats.into_iter();
+        for (i, it) in items.iter().enumerate() {
+            if it.msg.is_empty() {
+                recs.push(flats.next());
+                continue;
+            }
+            env.stats.eval();
+            let r = guard(|| -> Result<ERec, String> {
+                let mut p = Parser::from_ref(it.msg.as_slice());
+                p.advance(it.rec_pos).map_err(|e| e.to_string())?;
+                let hd = RecordHeader::parse_ref(&mut p).map_err(|e| e.to_string())?;
+                let mut p = Parser::from_ref(it.msg.as_slice());
+                p.advance(it.rec_pos).map_err(|e| e.to_string())?;
+                let rec = RecordHeader::parse_ref(&mut p).map_err(|e| e.to_string())?.parse_into_any_record::<_, PRd>(&mut p).map_err(|e| e.to_string())?;
+                if p.remaining() != 0 {
+                    return Err(format!("{} octets left after the record", p.remaining()));
+                }
+                Ok(ERec::P(rec, hd))
+            });
+            match r {
+                Ok(Ok(x)) => {
+                    *local.entry(format!("{dom}:parsed-by-shape-class:{}", it.class)).or_insert(0) += 1;
+                    *local.entry(format!("{dom}:parsed-by-type:{t}")).or_insert(0) += 1;
+                    recs.push(Some(x));
+                }
+                Ok(Err(e)) => {
+                    // whether a type accepts compressed names is not C04's
+                    // business (the uncompressed shape must parse)
+                    if it.class == "uncompressed" {
+                        env.viol(sig1("uncompressed-reference-rdata-does-not-parse", i), e, case1(i));
+                    } else {
+                        *local.entry(format!("{dom}:shape-not-accepted-by-the-parser:{t}")).or_insert(0) += 1;
+                    }
+                    recs.push(None);
+                }
+                Err(e) => {
+                    env.viol(sig1(&format!("panic|{}", panic_class(&e)), i), e, case1(i));
+                    recs.push(None);
+                }
+            }
+        }
+        let n = items.len();
+        let base_of: Vec<usize> = (0..n).map(|i| (0..n).find(|&j| items[j].cand == items[i].cand && items[j].msg.is_empty()).unwrap()).collect();
+        // unary: hash inputs, canonical form and flattening of the parsed values
+        type H3 = (Hs, Hs, Hs);
+        let hashes: Vec<Option<H3>> = (0..n)
+            .map(|i| {
+                let r = recs[i].as_ref()?;
+                // (the header of a record with a compressed name in its data has another RDLEN)
+                match guard(|| match r {
+                    ERec::F(x, h) => (hrec(x), hrec(x.data()), if owner_group { hrec(h) } else { Hs::default() }),
+                    ERec::P(x, h) => (hrec(x), hrec(x.data()), if owner_group { hrec(h) } else { Hs::default() }),
+                }) {
+                    Ok(h) => Some(h),
+                    Err(e) => {
+                        env.viol(sig1(&format!("panic|{}", panic_class(&e)), i), e, case1(i));
+                        None
+                    }
+                }
+            })
+            .collect();
+        for i in 0..n {
+            let Some(ERec::P(x, _)) = &recs[i] else { continue };
+            env.stats.eval();
+            if let (Some(h), Some(hf)) = (&hashes[i], &hashes[base_of[i]]) {
+                if h.0.stream != hf.0.stream || h.1.stream != hf.1.stream || h.2.stream != hf.2.stream {
+                    env.viol(sig1("hash-input-differs-from-the-flat-value", i), format!("record {} vs {}, data {} vs {}, header {} vs {}", hex(&h.0.stream), hex(&hf.0.stream), hex(&h.1.stream), hex(&hf.1.stream), hex(&h.2.stream), hex(&hf.2.stream)), case1(i));
+                } else if h.0.shape != hf.0.shape || h.1.shape != hf.1.shape || h.2.shape != hf.2.shape {
+                    env.viol(sig1("hasher-calls-differ-from-the-flat-value", i), String::new(), case1(i));
+                }
+            }
+            let cand = &cands[items[i].cand];
+            match compose_canon(x.data()) {
+                Ok(c) if c == cand.canon => {}
+                other => env.viol(sig1("compose_canonical_rdata-of-the-parsed-value-differs-from-the-canonical-form", i), format!("{:?} vs {}", other.map(|c| hex(&c)), hex(&cand.canon)), case1(i)),
+            }
+            let fl: Result<Result<Record<Nm, Rd>, std::convert::Infallible>, String> = guard(|| x.clone().try_flatten_into());
+            let same = match (&fl, &recs[base_of[i]]) {
+                (Ok(Ok(r)), Some(ERec::F(f, _))) => guard(|| r == f && f == r && r.cmp(f) == Ordering::Equal && r.canonical_cmp(f) == Ordering::Equal && hrec(r).stream == hrec(f).stream && compose_plain(r.data()).as_deref() == Some(&cand.wire[..]) && r.owner().as_slice() == f.owner().as_slice()).unwrap_or(false),
+                _ => false,
+            };
+            if !same {
+                env.viol(sig1("flattened-parsed-record-differs-from-the-flat-record", i), String::new(), case1(i));
+            }
+        }
+        // all ordered pairs
+        let mut obs: Vec<Option<EObs>> = vec![None; n * n];
+        for i in 0..n {
+            for j in 0..n {
+                let (Some(x), Some(y)) = (&recs[i], &recs[j]) else { continue };
+                env.stats.eval();
+                if i != j {
+                    env.stats.distinct(mix(21, b * 8 + k, i * 1024 + j));
+                }
+                match guard(|| eobserve(x, y)) {
+                    Err(e) => env.viol(sig2(&format!("panic|{}", panic_class(&e)), i, j), e, case2(i, j)),
+                    Ok((mut o, mut ord)) => {
+                        if !owner_group {
+                            // the headers differ in RDLEN by design: a compressed name is shorter
+                            o.2 = (true, Some(0));
+                            ord = ord.map(|x| (x.0, x.1, 0));
+                        }
+                        env.say(|| format!("{dom} {t} {} ? {}: {o:?} {ord:?}", items[i].kind, items[j].kind));
+                        obs[i * n + j] = Some(o);
+                        if let Some((rc, dc, hc)) = ord {
+                            if Some(rc) != o.0 .1 || Some(dc) != o.1 .1 || Some(hc) != o.2 .1 {
+                                env.viol(sig2("Ord::cmp-vs-partial_cmp", i, j), format!("{o:?} cmp {ord:?}"), case2(i, j));
+                            }
+                        }
+                    }
+                }
+            }
+        }
+        for i in 0..n {
+            for j in 0..n {
+                let Some(o) = obs[i * n + j] else { continue };
+                *local.entry(format!("{dom}:ordered-pairs")).or_insert(0) += 1;
+                let involves_parsed = !items[i].msg.is_empty() || !items[j].msg.is_empty();
+                // (1) the compression shape does not change any result
+                if let Some(f) = obs[base_of[i] * n + base_of[j]] {
+                    if (o.0, o.1, o.2) != (f.0, f.1, f.2) {
+                        env.viol(sig2("representation|result-depends-on-the-compression-shape", i, j), format!("{o:?}, the flat values give {f:?}"), case2(i, j));
+                    }
+                }
+                if !o.3 {
+                    env.viol(sig2("canonical_lt/le/gt/ge-vs-canonical_cmp", i, j), format!("{o:?}"), case2(i, j));
+                }
+                // (2) the reference
+                let (ca, cb) = (&cands[items[i].cand], &cands[items[j].cand]);
+                let (ka, kb): (Vec<Vec<u8>>, Vec<Vec<u8>>) = (ca.labels.iter().rev().map(|x| lc(x)).collect(), cb.labels.iter().rev().map(|x| lc(x)).collect());
+                let names_eq = ka == kb;
+                let name_order = sgn(ka.cmp(&kb));
+                let canon_order = sgn(ca.canon.cmp(&cb.canon));
+                let mut bad = Vec::new();
+                if owner_group {
+                    if o.0 .0 != names_eq || o.2 .0 != names_eq || !o.1 .0 {
+                        bad.push("eq-vs-reference");
+                    }
+                    if o.0 .1 != Some(name_order) || o.2 .1 != Some(name_order) || o.0 .2 != name_order || o.1 .1 != Some(0) || o.1 .2 != 0 {
+                        bad.push("order-vs-rfc4034-6.1-owner-order");
+                    }
+                } else {
+                    if o.0 .0 != names_eq || o.1 .0 != names_eq || !o.2 .0 {
+                        bad.push("eq-vs-reference");
+                    }
+                    if o.1 .2 != canon_order || o.0 .2 != canon_order {
+                        bad.push("canonical_cmp-vs-rfc4034-canonical-octets");
+                    }
+                    if o.0 .1.map(|c| c == 0) != Some(names_eq) || o.1 .1.map(|c| c == 0) != Some(names_eq) || o.2 .1 != Some(0) {
+                        bad.push("eq-iff-partial_cmp-equal");
+                    }
+                }
+                for kind in bad {
+                    if involves_parsed {
+                        env.viol(sig2(kind, i, j), format!("{o:?}; names equal ignoring case: {names_eq}, RFC 4034 6.1 order of the names {}, octet order of the canonical RDATA {}", ord_s(name_order), ord_s(canon_order)), case2(i, j));
+                    } else {
+                        *local.entry(format!("{dom}:flat-vs-flat-differs-from-reference(reported-by-the-rdata-domains):{kind}:{t}")).or_insert(0) += 1;
+                    }
+                }
+                // (3) equal values feed identical hash input
+                if o.0 .0 {
+                    if let (Some(h1), Some(h2)) = (&hashes[i], &hashes[j]) {
+                        if involves_parsed && (h1.0.stream != h2.0.stream || h1.1.stream != h2.1.stream || h1.2.stream != h2.2.stream) {
+                            env.viol(sig2("eq-implies-hash|hash-input-differs", i, j), format!("record {} vs {}", hex(&h1.0.stream), hex(&h2.0.stream)), case2(i, j));
+                        }
+                    }
+                }
+            }
+        }
+        *local.entry(format!("{dom}:groups(value,embedded-name)")).or_insert(0) += 1;
+        *local.entry(format!("{dom}:items")).or_insert(0) += n as u64;
+        env.stats.merge_counts(&local);
+        if owner_group {
+            if let Some(i) = (0..n).find(|&i| items[i].class == "bare-pointer-to-compressed") {
+                env.stats.sample(72, || json!({"domain": dom, "item": desc(i), "vs_flat": format!("{:?}", obs[i * n + base_of[i]])}));
+            }
+        }
+    });
+}
+
 //------------ wide: per type, all pairs of the rgen quick menu (thorough) -------------------
 
 fn dom_wide(env: &Env, only_type: Option<(&str, Vec<u64>)>, max_values: usize) {
@@ -3448,6 +3842,10 @@ fn main() {
                 let g = &case["group"];
                 dom_fields(&env, Some((g["base"].as_u64().unwrap_or(0) as usize, g["width"].as_u64().unwrap_or(0) as usize, g["offset"].as_u64().unwrap_or(0) as usize)))
             }
+            "rdata-name-shape" => {
+                let g = &case["group"];
+                dom_embedded_shapes(&env, case["max_hops"].as_u64().unwrap_or(2) as usize, Some((g["base"].as_u64().unwrap_or(0) as usize, g["name"].as_u64().unwrap_or(0) as usize)))
+            }
             "rdata-wide" => {
                 let c: Vec<u64> = case["candidates"].as_array().map(|a| a.iter().filter_map(|x| x.as_u64()).collect()).unwrap_or_default();
                 dom_wide(&env, Some((case["type"].as_str().unwrap_or(""), c)), usize::MAX)
@@ -3480,6 +3878,7 @@ fn main() {
         phase("rdata", &mut || dom_rdata(&env, None, false));
         phase("zrdata", &mut || dom_rdata(&env, None, true));
         phase("records", &mut || dom_records(&env, None));
+        phase("embedded-name-shapes", &mut || dom_embedded_shapes(&env, 3, None));
         phase("rdata-fields", &mut || dom_fields(&env, None));
         phase("rdata-wide", &mut || dom_wide(&env, None, if quick { 1000 } else { usize::MAX }));
     }
@@ -3503,6 +3902,14 @@ fn main() {
                 "variable_length_tails": "for every compact value and every offset (not inside an embedded name) the RDATA from that offset on replaced by each of 28 tails of length 0..3 over {00,01,02,FF} (shorter-but-larger, shorter-and-smaller, strict prefixes); all ordered pairs and triples within each (value, offset) group",
                 "numeric_fields": "every window of 1/2/4/6 octets outside embedded names of every compact value overwritten with 0, 1, 2^(n-1)-1, 2^(n-1), 2^(n-1)+1, 2^n-1; all ordered pairs and triples within each (value, width, offset) group",
                 "coverage_round": "relative names and chains of chains; UncertainName chains, ParsedName::from(Name) and conversions (to_name, to_vec, to_bytes, to_cow, to_canonical_name, compose, compose_canonical, flatten_into, make_canonical, Borrow) checked against the reference wire; flat names as Name<Bytes>, Name<&[u8]>, Name<[u8]>; CanonicalOrd::canonical_lt/le/gt/ge wherever canonical_cmp is called; RecordHeader (48 headers x 3 representations) and ParsedRecord; OwnerHash, Nsec3Salt (31 strings x 2 octets types) and Timestamp (8 boundary values); Record::compose_canonical as second opinion within an RRset; parsed records flattened",
+                "compression_shapes": {
+                    "shape": "a composition of the k labels of a name into h+1 parts, h = pointer hops; part i < h is stored as 'that many labels, then a pointer to part i+1', the last part as 'labels, root label'; a part of 0 labels is a bare pointer. All compositions for h = 0..max (C(k+h, h) each), ordered by h, then lexicographically",
+                    "classes": ["uncompressed", "labels+pointer", "bare-pointer-to-flat", "pointer-to-pointer-to-flat", "labels+pointer-chain", "bare-pointer-to-compressed"],
+                    "names": if quick { "all names of <= 3 labels over the 5-label menu with h <= 2 (156 names, 2158 shapes); all names of <= 2 labels over the extended 7-label menu with h <= 3, each shape stored with pointer targets < 256 and >= 256 (57 names, 2108 shapes)" } else { "as quick, plus all names of <= 3 labels over the 5-label menu with h <= 3 and over the extended 7-label menu with h <= 2" },
+                    "against": "flat Name and Chain split at every boundary of every name of the same menu; all ordered pairs of all representations",
+                    "per_shape": "independent decompression (mc::wire::read_name) of the hand-assembled message; parser position after ParsedName::parse; is_compressed vs as_flat_slice; as_flat_slice == uncompressed wire form when Some; to_name/try_to_name/flatten_into/to_vec/to_bytes/to_cow/compose and the canonical forms; forward/backward label iteration; Hash input == that of the flat Name; every name derived by iter_suffixes, split_first and parent equals the flat suffix by ==, name_eq, name_cmp, composed_cmp, lowercase_composed_cmp, Hash, as_flat_slice, to_vec",
+                    "embedded": "for every embedded name of every rgen compact value (183 groups) and for the owner of an A record: the name replaced by b., B., a.b., a.B. and the root, each flat and parsed from a two-record message that stores it in every shape with h <= 3 (inner segments are the RDATA of a preceding TYPE65280 record); all ordered pairs within a group through Record, record data and RecordHeader (owner group) ==, partial_cmp, cmp, canonical_cmp, canonical_lt.., Hash; try_flatten_into and compose_canonical_rdata of the parsed value",
+                },
                 "owners": ["a.", "A.", "b.a."], "classes": [1, 3], "ttls": [1, 3600],
                 "rdata": if quick { "rgen compact values + name-case twins + letter-case twins + Unknown-variant twins; records over compact values; plus per type all ordered pairs of the rgen quick-menu product for the types with at most 1000 values" } else { "as quick, records also over the twins; rgen quick-menu product for every type (53 564 values)" },
             },
@@ -3515,6 +3922,7 @@ fn main() {
             "RFC 4034 6.3 orders records only within one RRset; across RRsets the documented (class, owner, type, RDATA) order or the octet order of the complete canonical forms is accepted, and equal-RDATA records that differ in TTL may compare Equal or by TTL",
             "equality of record data is the library's choice between 'wire equal up to the case of embedded names' (must be equal) and anything coarser; only its coherence with cmp and Hash is demanded",
             "RelativeName, RecordHeader, ParsedRecord and Question are not enumerated; Chain has no Eq/Ord/Hash impls and is exercised through name_eq/name_cmp and as right-hand side of Name/ParsedName operators",
+            "compression shapes: whether as_flat_slice returns Some for a shape is the library's choice (counted per shape class); only 'if Some then exactly the uncompressed wire form' and is_compressed == as_flat_slice().is_none() are demanded. Record types whose parser refuses compressed names (IPSECKEY) are counted, not reported. RecordHeader is compared only in the owner group (RDLEN of a record with a compressed name in its data differs by design). Names of more than 3 labels, more than 3 pointer hops and shapes whose segments are not adjacent in the message are not covered",
             "in rdata-wide the hash inputs (up to 64 KiB each) are compared through a 2x64-bit digest plus lengths of the recorded stream",
         ],
     );
